@@ -41,6 +41,9 @@ type vmScenario struct {
 	PanicsOnly bool `json:"panics_only,omitempty"`
 }
 
+// loadOnlyMark: a text with this prefix is handed to LoadString only (compiled and queued, not run)
+const loadOnlyMark = "\x00load-only:"
+
 // ---- host side
 
 type host struct {
@@ -371,7 +374,13 @@ func runProgram(sc *vmScenario, texts []string, formIdx []int, failK int, failKi
 		dv, _ := depthsOf(env)
 		firedBefore := h.fired
 		res.Execs++
-		o := zy.Eval(env, t+" ", sc.Budget)
+		var o zy.Outcome
+		if strings.HasPrefix(t, loadOnlyMark) {
+			src := strings.TrimPrefix(t, loadOnlyMark)
+			o = zy.Guard(func() (zygo.Sexp, error) { return zygo.SexpNull, env.LoadString(src + " ") })
+		} else {
+			o = zy.Eval(env, t+" ", sc.Budget)
+		}
 		if o.Budget {
 			out.budget = true
 			return out
@@ -465,7 +474,7 @@ func setupSimDisk(files map[string]string) error {
 	if err := os.MkdirAll(dir, 0755); err != nil {
 		return err
 	}
-	for _, old := range []string{"s0.zy", "s1.zy", "s2.zy"} {
+	for _, old := range []string{"s0.zy", "s1.zy", "s2.zy", "bad9.zy"} {
 		os.Remove(filepath.Join(dir, old))
 	}
 	for name, content := range files {
@@ -690,6 +699,13 @@ func execFaults(sc *vmScenario, res *kernel.Result) {
 	}
 	compareLater := func(A *runOut, failedText int, T *runOut, what string, k int, kind string) {
 		// A evaluated texts [0..], T evaluated the same minus text #failedText
+		defer func() {
+			// and at the very end both have defined the same things
+			if len(res.Violations) == 0 && len(A.outs) == len(T.outs)+1 && A.endSnap != T.endSnap {
+				fail("R4-twin", "final-globals|"+kind, "%s: after the failure in form %d (%s, k=%d) and all later evaluations the globals are %s; an interpreter that never ran the failing form ends with %s. program=%s",
+					what, failedText, kind, k, A.endSnap, T.endSnap, mustJSON(texts))
+			}
+		}()
 		for j := failedText + 1; j < len(A.outs); j++ {
 			tj := j - 1
 			if tj >= len(T.outs) {
@@ -955,6 +971,7 @@ func execGrouping(sc *vmScenario, res *kernel.Result) {
 			gts = append(gts, strings.Join(texts[p:], "\n"))
 		}
 		// interleave empty inputs
+		loadedIdx := -1
 		var withEmpty []string
 		emptyIdx := map[int]bool{}
 		for i, t := range gts {
@@ -969,6 +986,12 @@ func execGrouping(sc *vmScenario, res *kernel.Result) {
 		if len(sc.EmptyAt) > 0 && len(sc.Empties) > 0 {
 			emptyIdx[len(withEmpty)] = true
 			withEmpty = append(withEmpty, sc.Empties[0])
+			// a text that the host loaded but did not run yet, then an empty evaluation: the loaded text runs, the
+			// value of the empty input is nil all the same
+			loadedIdx = len(withEmpty)
+			withEmpty = append(withEmpty, loadOnlyMark+"(+ 40 2)")
+			emptyIdx[len(withEmpty)] = true
+			withEmpty = append(withEmpty, sc.Empties[len(sc.Empties)-1])
 		}
 		G := runProgram(sc, withEmpty, nil, 0, "", false, res)
 		if G.budget {
@@ -988,6 +1011,9 @@ func execGrouping(sc *vmScenario, res *kernel.Result) {
 					fail("E-empty", "empty-input", "evaluating the empty input %q after %d evaluations returned %s instead of nil", withEmpty[i], i, G.outs[i])
 					return
 				}
+				continue
+			}
+			if i == loadedIdx {
 				continue
 			}
 			if G.kinds[i] != "val" {
@@ -1168,9 +1194,18 @@ func genVMRepeat(r *kernel.RNG, tier string, i int) interface{} {
 		// systematically: every natively failing core at every amplification level, at a seeded nesting
 		k := i / 2
 		g := newProgGen(r)
-		core := failingCores[k%len(failingCores)]
-		sc.FailForm = &vmForm{Text: g.nest(core, r.Intn(3)), Fail: true}
-		sc.Repeat = levels[(k/len(failingCores))%len(levels)]
+		all := append(append(append([]string{}, failingCores...), failingParseCores...), failingFileCores...)
+		core := all[k%len(all)]
+		if k%len(all) < len(failingCores) {
+			core = g.nest(core, r.Intn(3))
+		} else if k%len(all) >= len(failingCores)+len(failingParseCores) {
+			if sc.Files == nil {
+				sc.Files = map[string]string{}
+			}
+			sc.Files["bad9.zy"] = "(def bg9 1)\n(def bx9 (+ 1"
+		}
+		sc.FailForm = &vmForm{Text: core, Fail: true}
+		sc.Repeat = levels[(k/len(all))%len(levels)]
 	}
 	if tier == "thorough" && r.Chance(0.05) {
 		sc.Repeat = 40000
